@@ -9,6 +9,7 @@ import (
 	gast "github.com/yuin/goldmark/ast"
 	"github.com/yuin/goldmark/extension"
 	"github.com/yuin/goldmark/parser"
+	"github.com/yuin/goldmark/renderer"
 	"github.com/yuin/goldmark/renderer/html"
 )
 
@@ -23,7 +24,12 @@ type Config struct {
 	CJK         string `json:"cjk,omitempty"` // "", "default", "css3", "escaped"
 	AutoID      bool   `json:"auto_heading_id,omitempty"`
 	Attribute   bool   `json:"attribute,omitempty"`
-	FootnoteOpt string `json:"footnote_opt,omitempty"`     // "", "prefix", "prefixfn", "titles" (only with Footnote)
+	FootnoteOpt string `json:"footnote_opt,omitempty"`     // "", "prefix", "prefixfn", "titles", "both" (only with Footnote)
+	// OptsVia "renderer": the renderer-side options of extensions (footnote ids/titles, table
+	// alignment) are not given to NewFootnote/NewTable but passed, all together, through
+	// goldmark.WithRendererOptions — the renderer hands them to the node renderers in the
+	// iteration order of a map
+	OptsVia string `json:"opts_via,omitempty"`
 	TypoSubs    bool   `json:"typographer_subs,omitempty"` // custom substitutions (only with Typographer)
 	LinkifyOpt  string `json:"linkify_opt,omitempty"`      // "", "protocols", "regexp" (only with GFM)
 	Unsafe      bool   `json:"unsafe,omitempty"`
@@ -47,6 +53,9 @@ func (c Config) Key() string {
 	f(c.Footnote, "footnote")
 	if c.Footnote && c.FootnoteOpt != "" {
 		b.WriteString("fnopt=" + c.FootnoteOpt + ",")
+	}
+	if (c.Footnote && c.FootnoteOpt != "" || c.GFM && c.TableAlign != "") && c.OptsVia != "" {
+		b.WriteString("optsvia=" + c.OptsVia + ",")
 	}
 	f(c.Typographer, "typographer")
 	f(c.Typographer && c.TypoSubs, "typosubs")
@@ -78,6 +87,8 @@ func (c Config) C15Applies() bool { return c.AutoID && !c.Attribute && !c.Unsafe
 // earlier ones except what goldmark itself shares at package level.
 func (c Config) Build() goldmark.Markdown {
 	var exts []goldmark.Extender
+	var viaR []renderer.Option // extension options passed as renderer options
+	via := c.OptsVia == "renderer"
 	if c.GFM {
 		if c.TableAlign == "" && c.LinkifyOpt == "" {
 			exts = append(exts, extension.GFM)
@@ -95,7 +106,11 @@ func (c Config) Build() goldmark.Markdown {
 				default:
 					panic("bad table_align " + c.TableAlign)
 				}
-				table = extension.NewTable(extension.WithTableCellAlignMethod(m))
+				if via {
+					viaR = append(viaR, extension.WithTableCellAlignMethod(m))
+				} else {
+					table = extension.NewTable(extension.WithTableCellAlignMethod(m))
+				}
 			}
 			switch c.LinkifyOpt {
 			case "":
@@ -117,34 +132,31 @@ func (c Config) Build() goldmark.Markdown {
 		exts = append(exts, extension.DefinitionList)
 	}
 	if c.Footnote {
+		var fo []extension.FootnoteOption
 		switch c.FootnoteOpt {
 		case "":
-			exts = append(exts, extension.Footnote)
 		case "prefix":
-			exts = append(exts, extension.NewFootnote(extension.WithFootnoteIDPrefix("article12-")))
+			fo = append(fo, extension.WithFootnoteIDPrefix("article12-"))
 		case "prefixfn":
-			// a pure function of the document the node belongs to, as a per-page prefix is
-			exts = append(exts, extension.NewFootnote(extension.WithFootnoteIDPrefixFunction(func(n gast.Node) []byte {
-				d := n.OwnerDocument()
-				if d == nil {
-					return []byte("nodoc-")
-				}
-				// a pure function of the document that differs between most documents: the
-				// total length of its text segments
-				sum := 0
-				_ = gast.Walk(d, func(x gast.Node, entering bool) (gast.WalkStatus, error) {
-					if t, ok := x.(*gast.Text); ok && entering {
-						sum += t.Segment.Stop - t.Segment.Start
-					}
-					return gast.WalkContinue, nil
-				})
-				return []byte(fmt.Sprintf("page%d-%d-", d.ChildCount(), sum%97))
-			})))
+			fo = append(fo, extension.WithFootnoteIDPrefixFunction(footnotePrefixFn))
+		case "both": // a fixed prefix and a function: the fixed prefix is documented to win
+			fo = append(fo, extension.WithFootnoteIDPrefixFunction(footnotePrefixFn), extension.WithFootnoteIDPrefix("site-"))
 		case "titles":
-			exts = append(exts, extension.NewFootnote(extension.WithFootnoteLinkTitle("to ^^ (%%)"), extension.WithFootnoteBacklinkTitle("back %% of ^^"),
-				extension.WithFootnoteLinkClass("fl"), extension.WithFootnoteBacklinkClass("bl"), extension.WithFootnoteBacklinkHTML("^"), extension.WithFootnoteIDPrefix("p-")))
+			fo = append(fo, extension.WithFootnoteLinkTitle("to ^^ (%%)"), extension.WithFootnoteBacklinkTitle("back %% of ^^"),
+				extension.WithFootnoteLinkClass("fl"), extension.WithFootnoteBacklinkClass("bl"), extension.WithFootnoteBacklinkHTML("^"), extension.WithFootnoteIDPrefix("p-"))
 		default:
 			panic("bad footnote_opt " + c.FootnoteOpt)
+		}
+		switch {
+		case len(fo) == 0:
+			exts = append(exts, extension.Footnote)
+		case via:
+			exts = append(exts, extension.Footnote)
+			for _, o := range fo {
+				viaR = append(viaR, o)
+			}
+		default:
+			exts = append(exts, extension.NewFootnote(fo...))
 		}
 	}
 	if c.Typographer {
@@ -177,6 +189,9 @@ func (c Config) Build() goldmark.Markdown {
 	if len(popts) > 0 {
 		opts = append(opts, goldmark.WithParserOptions(popts...))
 	}
+	if len(viaR) > 0 {
+		opts = append(opts, goldmark.WithRendererOptions(viaR...))
+	}
 	if c.Unsafe {
 		opts = append(opts, goldmark.WithRendererOptions(html.WithUnsafe()))
 	}
@@ -187,6 +202,24 @@ func (c Config) Build() goldmark.Markdown {
 		opts = append(opts, goldmark.WithRendererOptions(html.WithHardWraps()))
 	}
 	return goldmark.New(opts...)
+}
+
+// footnotePrefixFn: a pure function of the document the node belongs to, as a per-page prefix
+// is, that differs between most documents: derived from the number of top-level blocks and
+// the total length of the text segments.
+func footnotePrefixFn(n gast.Node) []byte {
+	d := n.OwnerDocument()
+	if d == nil {
+		return []byte("nodoc-")
+	}
+	sum := 0
+	_ = gast.Walk(d, func(x gast.Node, entering bool) (gast.WalkStatus, error) {
+		if t, ok := x.(*gast.Text); ok && entering {
+			sum += t.Segment.Stop - t.Segment.Start
+		}
+		return gast.WalkContinue, nil
+	})
+	return []byte(fmt.Sprintf("page%d-%d-", d.ChildCount(), sum%97))
 }
 
 // genConfig draws a configuration. mode: "any", "c15" (AutoID, no Attribute, safe),
@@ -222,6 +255,12 @@ func genConfig(r *Rng, mode string) Config {
 	if c.Footnote && ro.Chance(1, 3) {
 		c.FootnoteOpt = pick(ro, []string{"prefix", "prefixfn", "titles"})
 	}
+	if rv := ro.Split("opts-via"); (c.Footnote && c.FootnoteOpt != "" || c.GFM && c.TableAlign != "") && rv.Chance(1, 3) {
+		c.OptsVia = "renderer"
+		if c.Footnote && rv.Chance(1, 3) {
+			c.FootnoteOpt = "both"
+		}
+	}
 	if c.Typographer && ro.Chance(1, 4) {
 		c.TypoSubs = true
 	}
@@ -243,7 +282,7 @@ func (c Config) String() string { return fmt.Sprintf("cfg{%s}", c.Key()) }
 // parserSide: c with everything that only configures the renderer side cleared.
 func parserSide(c Config) Config {
 	c.Unsafe, c.XHTML, c.HardWraps = false, false, false
-	c.TableAlign, c.FootnoteOpt = "", ""
+	c.TableAlign, c.FootnoteOpt, c.OptsVia = "", "", ""
 	if c.CJK != "" {
 		c.CJK = "default"
 	}
@@ -271,7 +310,8 @@ func rendererVariant(r *Rng, c Config) Config {
 			}
 		case 4:
 			if c.Footnote {
-				v.FootnoteOpt = pick(r, []string{"", "prefix", "prefixfn", "titles"})
+				v.FootnoteOpt = pick(r, []string{"", "prefix", "prefixfn", "titles", "both"})
+				v.OptsVia = pick(r, []string{"", "renderer"})
 			}
 		case 5:
 			if c.CJK != "" { // all three have the escaped-space parser option
